@@ -106,6 +106,20 @@ func randImage(r *rand.Rand) Op {
 	return mkOp(imageName, c01.VDict(m), c01.VStr(data))
 }
 
+var commentAlphabet = []byte{'%', '(', ')', 'E', 'I', ' ', '\t', 0, '\f', 'a', 'q', '1', '/', '<', '>', '[', '\\', 0x80, 'B', 'D'}
+var commentEnds = [][]byte{{}, {}, {' '}, {'\t'}, {'\f'}, {0}, {' ', ' '}, {'\r'}, {'\n'}, {'\r', '\n'}, {'\t', '\n'}}
+
+// randComment: a comment as raw content: "%", bytes other than CR and LF,
+// and one of the possible endings.
+func randComment(r *rand.Rand) Op {
+	b := []byte{'%'}
+	for n := r.Intn(9); n > 0; n-- {
+		b = append(b, commentAlphabet[r.Intn(len(commentAlphabet))])
+	}
+	b = append(b, commentEnds[r.Intn(len(commentEnds))]...)
+	return mkOp(rawName, c01.VStr(b))
+}
+
 func randomOps(ctx *core.Ctx) [][]Op {
 	r := ctx.Rand("ops")
 	n := ctx.Pick(3000, 30000)
@@ -116,6 +130,10 @@ func randomOps(ctx *core.Ctx) [][]Op {
 		for j := range ops {
 			if r.Intn(5) == 0 {
 				ops[j] = randImage(r)
+				continue
+			}
+			if r.Intn(7) == 0 {
+				ops[j] = randComment(r)
 				continue
 			}
 			name := randOpName(r)
